@@ -391,6 +391,10 @@ static void out_fvec(float *v, int64_t n)  { int64_t i; for (i = 0; i < n; i++) 
 #define DB(x) h_dbits(cn64(x))
 #define FB(x) h_fbits(cn32(x))
 
+/* the Validate family: with an error buffer (`msg` / `nomsg` = was a message written) and, with e=0, with errbuf == NULL (allowed by the API) */
+#define VALIDATE(fn, tol) { int st; if (h_argi("e", 1) == 0) { st = fn(x, n, tol, NULL); h_out("ok %s null", h_status(st)); } \
+    else { char eb[eslERRBUFSIZE]; memset(eb, 0x55, sizeof eb); st = fn(x, n, tol, eb); h_out("ok %s %s", h_status(st), eb[0] ? "msg" : "nomsg"); } }
+
 static void op_vec(void)
 {
   const char *op = h_arg("op"); int64_t nx = 0, ny = 0, n; unsigned char *xb = NULL, *yb = NULL;
@@ -441,9 +445,9 @@ static void op_vec(void)
     else if (!strcmp(op, "CDFInPlace")) { esl_vec_DCDF(x, n, x); out_dvec(x, n); }
     else if (!strcmp(op, "Compare"))  h_out("ok %d", esl_vec_DCompare(x, y, n, sd));
     else if (!strcmp(op, "MatCompare")) { int M = (int) h_argi("m", 1); double **A = esl_mat_DCreate(M, (int)(n / M)), **B = esl_mat_DCreate(M, (int)(n / M)); memcpy(A[0], x, 8*n); memcpy(B[0], y, 8*n); h_out("ok %d", esl_mat_DCompare(A, B, M, (int)(n / M), sd)); esl_mat_DDestroy(A); esl_mat_DDestroy(B); }
-    else if (!strcmp(op, "Validate")) { char eb[eslERRBUFSIZE]; int st; memset(eb, 0x55, sizeof eb); st = esl_vec_DValidate(x, n, sd, eb); h_out("ok %s %s", h_status(st), eb[0] ? "msg" : "nomsg"); }
-    else if (!strcmp(op, "LogValidate")) { char eb[eslERRBUFSIZE]; int st; memset(eb, 0x55, sizeof eb); st = esl_vec_DLogValidate(x, n, sd, eb); h_out("ok %s %s", h_status(st), eb[0] ? "msg" : "nomsg"); }
-    else if (!strcmp(op, "Log2Validate")) { char eb[eslERRBUFSIZE]; int st; memset(eb, 0x55, sizeof eb); st = esl_vec_DLog2Validate(x, n, sd, eb); h_out("ok %s %s", h_status(st), eb[0] ? "msg" : "nomsg"); }
+    else if (!strcmp(op, "Validate")) VALIDATE(esl_vec_DValidate, sd)
+    else if (!strcmp(op, "LogValidate")) VALIDATE(esl_vec_DLogValidate, sd)
+    else if (!strcmp(op, "Log2Validate")) VALIDATE(esl_vec_DLog2Validate, sd)
     else h_out("bad-op");
   } else if (T == 'F') {
     float *x = (float *) xb, *y = (float *) yb; n = nx / 4;
@@ -484,9 +488,9 @@ static void op_vec(void)
     else if (!strcmp(op, "CDF"))      { float *c = malloc(4*n + 4); esl_vec_FCDF(x, n, c); out_fvec(c, n); free(c); }
     else if (!strcmp(op, "Compare"))  h_out("ok %d", esl_vec_FCompare(x, y, n, sf));
     else if (!strcmp(op, "MatCompare")) { int M = (int) h_argi("m", 1); float **A = esl_mat_FCreate(M, (int)(n / M)), **B = esl_mat_FCreate(M, (int)(n / M)); memcpy(A[0], x, 4*n); memcpy(B[0], y, 4*n); h_out("ok %d", esl_mat_FCompare(A, B, M, (int)(n / M), sf)); esl_mat_FDestroy(A); esl_mat_FDestroy(B); }
-    else if (!strcmp(op, "Validate")) { char eb[eslERRBUFSIZE]; int st; memset(eb, 0x55, sizeof eb); st = esl_vec_FValidate(x, n, sf, eb); h_out("ok %s %s", h_status(st), eb[0] ? "msg" : "nomsg"); }
-    else if (!strcmp(op, "LogValidate")) { char eb[eslERRBUFSIZE]; int st; memset(eb, 0x55, sizeof eb); st = esl_vec_FLogValidate(x, n, sf, eb); h_out("ok %s %s", h_status(st), eb[0] ? "msg" : "nomsg"); }
-    else if (!strcmp(op, "Log2Validate")) { char eb[eslERRBUFSIZE]; int st; memset(eb, 0x55, sizeof eb); st = esl_vec_FLog2Validate(x, n, sf, eb); h_out("ok %s %s", h_status(st), eb[0] ? "msg" : "nomsg"); }
+    else if (!strcmp(op, "Validate")) VALIDATE(esl_vec_FValidate, sf)
+    else if (!strcmp(op, "LogValidate")) VALIDATE(esl_vec_FLogValidate, sf)
+    else if (!strcmp(op, "Log2Validate")) VALIDATE(esl_vec_FLog2Validate, sf)
     else h_out("bad-op");
   } else if (T == 'I') {
     int *x = (int *) xb, *y = (int *) yb; n = nx / 4;
